@@ -214,13 +214,6 @@ class Tree:
                 if {h[0] for h in have} == {w[0] for w in want}:
                     continue  # same names (possibly in another order: reordered independent statements): nothing to rename
                 mapping = match_locals(have, want) if want and len(want[0]) == 4 else {}
-                # leftovers: positional among the unmatched when their kinds agree
-                rest_h = list({h[0]: h for h in reversed(have) if h[0] not in mapping}.values())[::-1]
-                rest_w = list({w[0]: w for w in reversed(want) if w[0] not in mapping.values()}.values())[::-1]
-                if len(rest_h) == len(rest_w) and [h[1] for h in rest_h] == [w[1] for w in rest_w]:
-                    for h, w in zip(rest_h, rest_w):
-                        if h[1] not in ("def", "import"):
-                            mapping[h[0]] = w[0]
                 mapping = {k: v for k, v in mapping.items() if k != v}
                 if not mapping:
                     continue
